@@ -4,8 +4,40 @@ From Coq Require Import List ZArith NArith QArith String Ascii Bool Lia Permutat
 From Qryn Require Import lib.Strs model.Sql model.SqlRender model.Logql model.LogqlRegexp model.LogqlPlan model.SqlEval model.LogqlSem
   proofs.SqlEvalProofs proofs.LogqlSemProofs proofs.LogqlRegexpProofs.
 From Qryn Require Import proofs.LogqlSem2Base.
+From Qryn Require model.LogqlTemplate.
 Import ListNotations.
 Open Scope string_scope.
+
+(* ---------- the two references coincide on a pipeline without line_format ---------- *)
+Definition no_lfmt (ppl : list stage) : bool := forallb (fun s => match s with PLineFormat _ => false | _ => true end) ppl.
+Lemma run_l_no_lfmt {RG : ReGroups} re_match parse_float json_get hash_labels : forall ppl line st, no_lfmt ppl = true ->
+  run_lstages re_match parse_float json_get hash_labels ppl line st
+  = option_map (pair line) (run_stages re_match parse_float json_get hash_labels ppl line st).
+Proof.
+  induction ppl as [|s r IH]; intros line st H; [reflexivity|]. cbn [no_lfmt forallb] in H. apply andb_prop in H. destruct H as [Hs Hr].
+  destruct s as [op v rl|f|fn ps|tm| |lb|ps]; cbn [run_lstages run_stages]; try reflexivity; try discriminate Hs.
+  - destruct (line_ok re_match line op v); [now apply IH|reflexivity].
+  - destruct (lf_ok re_match parse_float (p_labels st) f); [now apply IH|reflexivity].
+  - destruct fn; try reflexivity.
+    + destruct (json_stage json_get hash_labels ps line st); [now apply IH|reflexivity].
+    + destruct (regexp_stage hash_labels ps line st); [now apply IH|reflexivity].
+  - now apply IH.
+Qed.
+Lemma log_rows3_no_lfmt {RG : ReGroups} re_match parse_float json_get hash_labels q c d : no_lfmt (sel_pipeline q) = true ->
+  log_rows3 re_match parse_float json_get hash_labels q c d = log_rows2 re_match parse_float json_get hash_labels q c d.
+Proof.
+  intros H. unfold log_rows3, log_rows2. induction (d_samples d) as [|x l IH]; [reflexivity|]. cbn [flat_map]. rewrite IH. f_equal.
+  unfold sample_out3, sample_out. destruct (in_window c x && type_in c (x_type x) && forallb _ _); [|reflexivity].
+  rewrite (run_l_no_lfmt re_match parse_float json_get hash_labels _ _ _ H).
+  destruct (run_stages _ _ _ _ _ _ _) as [st|]; reflexivity.
+Qed.
+Lemma simple_ops_no_lf : forall r, existsb is_label_filter (take_while (fun s => negb (is_relabel s)) r) = false ->
+  simple_ops r = map (fun _ => false) r.
+Proof.
+  induction r as [|s r IH]; intros H; [reflexivity|]. cbn [simple_ops]. destruct (is_relabel s) eqn:E; [reflexivity|].
+  cbn [take_while negb] in H. rewrite E in H. cbn [negb existsb] in H. apply orb_false_iff in H. destruct H as [H1 H2].
+  cbn [map]. now rewrite H1, (IH H2).
+Qed.
 
 Section PLAN2.
   Context {RG : ReGroups}.
@@ -29,6 +61,17 @@ Section PLAN2.
 
   (* the planner state in which every planner of the chain above the labels join is processed *)
   Notation st0 := (clear_caches pst0).
+
+  Lemma sup_no_lfmt ppl : forallb stage_supported ppl = true -> no_lfmt ppl = true.
+  Proof.
+    induction ppl as [|s r IH]; intros H; [reflexivity|]. cbn [forallb] in H. apply andb_prop in H. destruct H as [Hs Hr].
+    cbn [no_lfmt forallb]. fold (no_lfmt r). rewrite (IH Hr). destruct s; try discriminate Hs; reflexivity.
+  Qed.
+  Lemma log_rows2_live ppl : no_lfmt ppl = true ->
+    log_rows2 re_match parse_float json_get hash_labels {| sel_matchers := ms; sel_pipeline := ppl |} c d = map mkout2 (LIVE ppl).
+  Proof.
+    intros H. rewrite <- (log_rows3_no_lfmt re_match parse_float json_get hash_labels _ c d) by exact H. apply log_rows3_live.
+  Qed.
 
   Definition pinv (cur : planner) (done : list stage) (m : mode) (swap : bool) : Prop :=
     exists sel st' cur', process cur c st0 = Some (sel, st', cur') /\ SINV sel done m swap.
@@ -61,32 +104,30 @@ Section PLAN2.
     - cbn [process]. rewrite Hp. cbn [bind]. reflexivity.
     - now apply (A7 sinv_drop ms sel done m swap ps).
   Qed.
-  Lemma pinv_label_filter cur done m f : pinv cur done m false -> lf_supported f = true -> lf_oracle_ok parse_float f ->
+  Lemma pinv_label_filter cur done m f : pinv cur done m false -> (m = MFresh \/ m = MFilt) -> lf_supported f = true -> lf_oracle_ok parse_float f ->
     pinv (PLabelFilterP f cur) (done ++ [PLabelFilter f]) MFilt false.
   Proof.
-    intros [sel [st' [cur' [Hp Hs]]]] Hsup Hor. destruct (lf_cond_some_g None f Hsup) as [cond Hc].
+    intros [sel [st' [cur' [Hp Hs]]]] Hmode Hsup Hor. destruct (lf_cond_some_g None f Hsup) as [cond Hc].
     exists (and_where [cond] sel), st', (PLabelFilterP f cur'). split.
     - cbn [process]. rewrite Hp. cbn [bind]. rewrite Hc. reflexivity.
-    - apply (A7 sinv_filter ms sel done m cond (fun u => lf_ok re_match parse_float (p_labels (snd u)) f) (PLabelFilter f) Hs).
-      + intros T src out _ t Ht.
-        apply (A7 ev_lf_cond_g None [(st_row false (out t) ++ src t)%list] (p_labels (snd (out t)))); [|exact Hc|exact Hor].
-        intros name. cbn [label_expr]. apply ev_labels_idx. apply lookup_app_some. reflexivity.
+    - apply (A7 sinv_filter ms sel done m cond (fun u => lf_ok re_match parse_float (p_labels (snd u)) f) (PLabelFilter f) Hs Hmode).
+      + intros T src out _ t Ht b Hb Hl.
+        apply (A7 ev_lf_cond_g None [(b ++ src t)%list] (p_labels (snd (out t)))); [|exact Hc|exact Hor].
+        intros name. cbn [label_expr]. apply ev_labels_idx. now apply lookup_app_some.
       + apply live_label_filter.
   Qed.
-  Lemma pinv_line_filter cur done m op v rl : pinv cur done m false ->
+  Lemma pinv_line_filter cur done m op v rl : pinv cur done m false -> (m = MFresh \/ m = MFilt) ->
     stage_oracle_ok re_match parse_float (PLineFilter op v rl) ->
     pinv (PLineFilterP op v rl cur) (done ++ [PLineFilter op v rl]) MFilt false.
   Proof.
-    intros [sel [st' [cur' [Hp Hs]]]] Hor.
+    intros [sel [st' [cur' [Hp Hs]]]] Hmode Hor.
     exists (and_where [line_filter_clause op v rl] sel), st', (PLineFilterP op v rl cur'). split.
     - cbn [process]. rewrite Hp. cbn [bind]. reflexivity.
     - apply (A7 sinv_filter ms sel done m (line_filter_clause op v rl) (fun u => line_ok re_match (x_line (fst u)) op v)
-               (PLineFilter op v rl) Hs).
-      + intros T src out Hsrc t Ht. destruct (Hsrc t Ht) as [H1 H2].
-        apply (A7 ev_lft_clause (op, v, rl) (st_row false (out t) ++ src t)%list [] (x_line (fst (out t)))); [|exact Hor].
-        split.
-        * rewrite lookup_alias_skip by (first [apply (st_row_alias re_match parse_float json_get)|apply not_alias; reflexivity]). exact H1.
-        * apply lookup_app_some. reflexivity.
+               (PLineFilter op v rl) Hs Hmode).
+      + intros T src out Hsrc t Ht b Hb _. pose proof (Hsrc t Ht) as H1.
+        apply (A7 ev_lft_clause (op, v, rl) (b ++ src t)%list [] (x_line (fst (out t)))); [|exact Hor].
+        unfold line_row. rewrite lookup_alias_skip by (first [exact Hb|apply not_alias; reflexivity]). exact H1.
       + apply live_line_filter.
   Qed.
   Lemma pinv_renew cur done m swap : pinv cur done m swap -> pinv (PMainRenew cur true) done MFresh false.
@@ -97,17 +138,44 @@ Section PLAN2.
     - now apply (A7 sinv_renew ms _ sel done m swap).
   Qed.
 
+  (* a template of the fragment (tpl_plain): it parses, and executing it succeeds on every label map *)
+  Lemma plain_total ns :
+    forallb (fun n => match n with
+                      | LogqlTemplate.TText _ => true
+                      | LogqlTemplate.TAct [[LogqlTemplate.OF _ []]] => true
+                      | _ => false end) ns = true -> tpl_total ns.
+  Proof.
+    intros H ls. induction ns as [|n ns IH]; [discriminate|]. cbn [forallb] in H. apply andb_prop in H. destruct H as [Hn Hr].
+    specialize (IH Hr). cbn [LogqlTemplate.tpl_exec]. destruct n as [t|cmds].
+    - destruct (LogqlTemplate.tpl_exec ns ls); [discriminate|contradiction].
+    - destruct cmds as [|c0 cs]; [discriminate Hn|]. destruct c0 as [|o os]; [discriminate Hn|].
+      destruct o as [nm ch| |]; try discriminate Hn. destruct ch; [|discriminate Hn]. destruct os; [|discriminate Hn].
+      destruct cs; [|discriminate Hn]. cbn [LogqlTemplate.act_exec].
+      destruct (LogqlTemplate.tpl_exec ns ls); [discriminate|contradiction].
+  Qed.
+  Lemma pinv_lfmt cur done m swap tm : pinv cur done m swap -> (m = MFresh \/ m = MFilt) -> tpl_plain tm = true ->
+    pinv (PLineFormatP tm cur) (done ++ [PLineFormat tm]) MFmt swap.
+  Proof.
+    intros [sel [st' [cur' [Hp Hs]]]] Hm Hpl. unfold tpl_plain in Hpl.
+    destruct (LogqlTemplate.tpl_parse tm) as [ns| |] eqn:Ep; try discriminate.
+    exists (lfmt_patch ns sel). eexists. exists (PLineFormatP tm cur'). split.
+    - cbn [process]. rewrite Hp. cbn [bind next_id]. rewrite Ep. reflexivity.
+    - apply (A7 sinv_lfmt ms sel done m swap tm ns Hs Hm Ep). now apply plain_total.
+  Qed.
+
   (* ---------- the stages of the fragment, the renew flag, which stage an open select accepts ---------- *)
-  Definition frag_stage (s : stage) : bool := is_filter s || is_json s || LogqlSem.is_drop s || is_regexp s.
+  Definition frag_stage (s : stage) : bool := is_filter s || is_json s || LogqlSem.is_drop s || is_regexp s || is_lfmt s.
   Definition compat (m : mode) (swap : bool) (s : stage) : Prop :=
     match s with
     | PParser PJson _ => m = MFresh \/ m = MParsed
     | PParser PRegexp _ => m = MFresh \/ m = MParsed
     | PDrop _ => m = MFresh \/ m = MParsed
-    | PLineFilter _ _ _ | PLabelFilter _ => swap = false
+    | PLineFilter _ _ _ | PLabelFilter _ => swap = false /\ (m = MFresh \/ m = MFilt)
+    | PLineFormat _ => m = MFresh \/ m = MFilt
     | _ => False
     end.
-  Definition mode_after (s : stage) : mode := match s with PParser _ _ => MParsed | PDrop _ => MParsed | _ => MFilt end.
+  Definition mode_after (s : stage) : mode :=
+    match s with PParser _ _ => MParsed | PDrop _ => MParsed | PLineFormat _ => MFmt | _ => MFilt end.
   Definition step (s : stage) (rn : bool) (cur : planner) : option planner :=
     match plan_stage s false cur with None => None | Some cur2 => Some (if rn then PMainRenew cur2 true else cur2) end.
 
@@ -119,13 +187,15 @@ Section PLAN2.
     intros Hp Hf Hor Hc. unfold step.
     assert (H : exists cur2, plan_stage s false cur = Some cur2 /\ pinv cur2 (done ++ [s]) (mode_after s) swap).
     { destruct s as [op v rl|f|fn ps|tm| |lb|ps]; cbn [compat] in Hc; try contradiction.
-      - subst swap. eexists. split; [reflexivity|]. now apply (pinv_line_filter cur done m).
-      - subst swap. eexists. split; [reflexivity|]. unfold frag_stage in Hf. cbn [is_filter is_json LogqlSem.is_drop is_regexp orb] in Hf.
+      - destruct Hc as [-> Hc]. eexists. split; [reflexivity|]. now apply (pinv_line_filter cur done m).
+      - destruct Hc as [-> Hc]. eexists. split; [reflexivity|]. unfold frag_stage in Hf. cbn [is_filter is_json LogqlSem.is_drop is_regexp is_lfmt orb] in Hf.
         rewrite !orb_false_r in Hf. now apply (pinv_label_filter cur done m).
-      - destruct fn; try contradiction; unfold frag_stage in Hf; cbn [is_filter is_json LogqlSem.is_drop is_regexp orb] in Hf.
+      - destruct fn; try contradiction; unfold frag_stage in Hf; cbn [is_filter is_json LogqlSem.is_drop is_regexp is_lfmt orb] in Hf.
         + rewrite !orb_false_r in Hf. unfold json_ok in Hf. destruct (all_paths ps) as [paths|] eqn:Ep; [|discriminate].
           eexists. split; [reflexivity|]. now apply (pinv_json cur done m swap ps paths).
-        + eexists. split; [reflexivity|]. now apply (pinv_regexp cur done m swap ps).
+        + rewrite !orb_false_r in Hf. eexists. split; [reflexivity|]. now apply (pinv_regexp cur done m swap ps).
+      - unfold frag_stage in Hf. cbn [is_filter is_json LogqlSem.is_drop is_regexp is_lfmt orb] in Hf.
+        eexists. split; [reflexivity|]. now apply (pinv_lfmt cur done m swap tm).
       - eexists. split; [reflexivity|]. now apply (pinv_drop cur done m). }
     destruct H as [cur2 [-> Hp2]]. destruct rn.
     - eexists. split; [reflexivity|]. now apply (pinv_renew cur2 _ (mode_after s) swap).
@@ -153,7 +223,7 @@ Section PLAN2.
       try (destruct fn; try contradiction);
       destruct n as [op' v' rl'|f'|fn' ps'|tm'| |lb'|ps']; try discriminate Hn;
       try (destruct fn'; try discriminate Hn);
-      cbn [is_parser LogqlPlan.is_drop is_relabel negb mode_after compat]; auto.
+      cbn [is_parser LogqlPlan.is_drop is_relabel negb mode_after compat]; intuition (subst; auto).
   Qed.
 
   Section CHAIN.
@@ -295,12 +365,12 @@ Section PLAN2.
         cbn [bind map]. unfold join_select, ts_select, w. cbn [fst snd]. reflexivity.
       - exists (Id "main.timestamp_ns"), (Id "main.fingerprint"), (Id "_time_series.labels"), (Id "main.string"), (Id "main.value"),
                None, (map (fun x => (x, jinit tl' x)) ml), jsrc, (fun t => t), (fun _ => true).
-        split; [|split; [|split; [|split; [|split; [|split; [|split; [|split]]]]]]].
+        split; [|split; [|split; [|split; [|split; [|split; [|split; [|split; [|split; [|split]]]]]]]]].
         + constructor; reflexivity.
         + rewrite map_map. exact Hsrc.
         + intros t Ht. apply in_map_iff in Ht. destruct Ht as [x [<- Hx]].
           constructor; intros b Hb; intros; rewrite (A7 ev_id_src) by (assumption || reflexivity); reflexivity.
-        + intros t Ht. reflexivity.
+        + intros _ t Ht. reflexivity.
         + intros t Ht. reflexivity.
         + rewrite filter_true, map_id. rewrite (live_filters re_match parse_float json_get hash_labels c d ms pre Hpre).
           assert (Hfilt : filter (main_pred re_match c F (lfts pre)) (d_samples d)
@@ -316,7 +386,11 @@ Section PLAN2.
         + reflexivity.
         + intros _ t Ht b Hb. apply in_map_iff in Ht. destruct Ht as [x [<- Hx]].
           rewrite (A7 ev_id_src) by (assumption || reflexivity). reflexivity.
-        + discriminate.
+        + intros _ Hsw. discriminate Hsw.
+        + intros _ t Ht b Hb. apply in_map_iff in Ht. destruct Ht as [x [<- Hx]].
+          rewrite (A7 ev_id_src) by (assumption || reflexivity). reflexivity.
+        + intros _ t Ht. apply in_map_iff in Ht. destruct Ht as [x [<- Hx]]. split; [reflexivity|].
+          intros b Hb. rewrite (A7 ev_id_src) by (assumption || reflexivity). reflexivity.
     Qed.
     Lemma pinv_join :
       pinv (PLabelsJoin (PMainOrderBy ["timestamp_ns"] (lf_wrap (lfts pre) (PFingerprintFilter (fp_planner ms (slfs pre)) PMainInit)))
@@ -327,19 +401,31 @@ Section PLAN2.
   (* ================= the planner of a fragment query: filters, then the first relabelling stage, then anything ================= *)
   Lemma is_filter_supported s : is_filter s = stage_supported s.
   Proof. destruct s; reflexivity. Qed.
-  Lemma frag_split : forall l, forallb frag_stage l = true -> existsb (fun s => is_json s || LogqlSem.is_drop s || is_regexp s) l = true ->
-    exists pre s0 rest, l = (pre ++ s0 :: rest)%list /\ forallb stage_supported pre = true
-      /\ (is_json s0 || LogqlSem.is_drop s0 || is_regexp s0) = true.
+  Definition jstage (s : stage) : bool := is_json s || LogqlSem.is_drop s || is_regexp s || is_lfmt s.
+  Lemma frag_split : forall l, forallb frag_stage l = true -> existsb jstage l = true ->
+    exists pre s0 rest, l = (pre ++ s0 :: rest)%list /\ forallb stage_supported pre = true /\ jstage s0 = true.
   Proof.
     induction l as [|s l IH]; intros Hf Hex; [discriminate|].
     cbn [forallb existsb] in Hf, Hex. apply andb_prop in Hf. destruct Hf as [Hs Hl].
-    destruct (is_json s || LogqlSem.is_drop s || is_regexp s) eqn:E.
+    destruct (jstage s) eqn:E.
     - exists [], s, l. split; [reflexivity|]. split; [reflexivity|exact E].
     - cbn [orb] in Hex. destruct (IH Hl Hex) as [pre [s0 [rest [-> [Hp H0]]]]].
       exists (s :: pre), s0, rest. split; [reflexivity|]. split; [|exact H0].
-      cbn [forallb]. rewrite Hp, andb_true_r. unfold frag_stage in Hs. rewrite <- !orb_assoc in Hs. rewrite <- !orb_assoc in E.
+      cbn [forallb]. rewrite Hp, andb_true_r. unfold frag_stage in Hs. unfold jstage in E.
+      rewrite <- !orb_assoc in Hs. rewrite <- !orb_assoc in E.
       rewrite E, orb_false_r in Hs.
       now rewrite <- is_filter_supported.
+  Qed.
+  (* behind the first stage that needs the labels no label filter is pushed down to the series table *)
+  Lemma lfmt_simple_split : forall pre s0 rest, forallb stage_supported pre = true -> jstage s0 = true ->
+    lfmt_simple_ok (pre ++ s0 :: rest) = true -> simple_ops (s0 :: rest) = map (fun _ => false) (s0 :: rest).
+  Proof.
+    induction pre as [|s pre IH]; intros s0 rest Hp H0 Hs.
+    - cbn [app lfmt_simple_ok] in Hs. cbn [simple_ops]. destruct (is_relabel s0) eqn:E; [reflexivity|].
+      destruct s0; try discriminate H0; try discriminate E.
+      apply negb_true_iff in Hs. cbn [is_label_filter map]. now rewrite (simple_ops_no_lf rest Hs).
+    - cbn [forallb] in Hp. apply andb_prop in Hp. destruct Hp as [H1 H2]. apply (IH s0 rest H2 H0).
+      cbn [app lfmt_simple_ok] in Hs. destruct s; try discriminate H1; exact Hs.
   Qed.
 
   Section PREFIX.
@@ -347,13 +433,14 @@ Section PLAN2.
     Variable s0 : stage.
     Variable rest : list stage.
     Hypothesis Ers : rs = s0 :: rest.
-    Hypothesis Hrel : is_relabel s0 = true.
+    Hypothesis Hjoin : match s0 with PParser _ _ | PDrop _ | PLineFormat _ => True | _ => False end.
+    Hypothesis Hsimple : simple_ops rs = map (fun _ => false) rs.
 
     Lemma pre_simple : forall pre, forallb stage_supported pre = true ->
       simple_ops (pre ++ rs) = (map is_label_filter pre ++ map (fun _ => false) rs)%list.
     Proof.
       induction pre as [|s pre IH]; intros H.
-      - cbn [app map]. rewrite Ers. cbn [simple_ops]. now rewrite Hrel.
+      - cbn [app map]. exact Hsimple.
       - cbn [forallb] in H. apply andb_prop in H. destruct H as [Hs Hl]. cbn [app simple_ops map].
         destruct s; try discriminate; cbn [is_relabel is_label_filter]; now rewrite IH.
     Qed.
@@ -362,7 +449,7 @@ Section PLAN2.
     Proof.
       induction pre as [|s pre IH]; intros i H.
       - cbn [app map List.length]. rewrite Ers. cbn [map labels_join_idx]. rewrite Nat.add_0_r.
-        destruct s0; try discriminate; reflexivity.
+        destruct s0; try contradiction; reflexivity.
       - cbn [forallb] in H. apply andb_prop in H. destruct H as [Hs Hl]. cbn [app map labels_join_idx List.length].
         rewrite Nat.add_succ_r, <- Nat.add_succ_l.
         destruct s; try discriminate; cbn [is_label_filter]; now apply IH.
@@ -384,7 +471,7 @@ Section PLAN2.
       = fold_left (fun fp f => PSimpleLabelFilter f fp) (slfs pre) acc.
     Proof.
       induction pre as [|s pre IH]; intros acc H.
-      - cbn [app map slfs fold_left]. clear Ers Hrel. induction rs as [|a l IHl] in acc |- *; [reflexivity|].
+      - cbn [app map slfs fold_left]. clear Ers Hsimple. induction rs as [|a l IHl] in acc |- *; [reflexivity|].
         cbn [map combine fold_left fst snd]. destruct a; apply IHl.
       - cbn [forallb] in H. apply andb_prop in H. destruct H as [Hs Hl].
         cbn [app map combine fold_left fst snd slfs]. destruct s; try discriminate; cbn [is_label_filter fold_left]; now apply IH.
@@ -524,7 +611,7 @@ Section PLAN2.
       split; [|split; [exact Hfinal|split; [|split]]].
       - unfold bp_select. rewrite plan_log_fragment_bp. rewrite (process_finalizer_bp _ _ _ _ Hproc Hfin). reflexivity.
       - rewrite !map_map. apply map_ext. intros t. reflexivity.
-      - unfold q1. rewrite log_rows2_live. apply Permutation_map.
+      - unfold q1. rewrite (log_rows2_live ppl (sup_no_lfmt ppl Hsup)). apply Permutation_map.
         eapply Permutation_trans; [apply isort_perm|]. eapply Permutation_trans; [exact Hpl'|exact HpermU].
       - apply sorted_mkout2. apply (isort_sorted (lts_leb c) lts_leb_total lts_leb_trans).
     Qed.
@@ -533,7 +620,8 @@ Section PLAN2.
   Section FINAL.
     Variable ppl : list stage.
     Hypothesis Hfrag : forallb frag_stage ppl = true.
-    Hypothesis Hex : existsb (fun s => is_json s || LogqlSem.is_drop s || is_regexp s) ppl = true.
+    Hypothesis Hex : existsb jstage ppl = true.
+    Hypothesis Hsimp : lfmt_simple_ok ppl = true.
     Hypothesis Hor : forall s, List.In s ppl -> stage_oracle_ok re_match parse_float s.
     Let q := {| sel_matchers := ms; sel_pipeline := ppl |}.
 
@@ -542,7 +630,10 @@ Section PLAN2.
                                             false fin) /\ pinv p ppl m swap.
     Proof.
       destruct (frag_split ppl Hfrag Hex) as [pre [s0 [rest [E [Hpre H0]]]]].
-      assert (Hrel : is_relabel s0 = true) by (destruct s0; cbn in H0; try discriminate H0; reflexivity).
+      assert (Hjoin : match s0 with PParser _ _ | PDrop _ | PLineFormat _ => True | _ => False end)
+        by (destruct s0; cbn in H0; try discriminate H0; exact I).
+      assert (Hsimple : simple_ops (s0 :: rest) = map (fun _ => false) (s0 :: rest)).
+      { apply (lfmt_simple_split pre s0 rest Hpre H0). now rewrite <- E. }
       assert (Hf2 : forallb frag_stage pre = true /\ frag_stage s0 = true /\ forallb frag_stage rest = true).
       { rewrite E, forallb_app in Hfrag. cbn [forallb] in Hfrag. apply andb_prop in Hfrag. destruct Hfrag as [H1 H2].
         apply andb_prop in H2. tauto. }
@@ -554,8 +645,9 @@ Section PLAN2.
       assert (Hor_rest : forall s, List.In s rest -> stage_oracle_ok re_match parse_float s).
       { intros s Hs. apply Hor. rewrite E. apply in_or_app. right. now right. }
       assert (Hc0 : compat MFresh true s0).
-      { destruct s0 as [op v rl|f|fn ps|tm| |lb|ps]; cbn [is_json LogqlSem.is_drop is_regexp orb] in H0; try discriminate H0.
+      { unfold jstage in H0. destruct s0 as [op v rl|f|fn ps|tm| |lb|ps]; cbn [is_json LogqlSem.is_drop is_regexp is_lfmt orb] in H0; try discriminate H0.
         - destruct fn; cbn [orb] in H0; try discriminate H0; now left.
+        - now left.
         - now left. }
       pose proof (pinv_join pre Hpre Hor_pre) as Hj.
       destruct (pinv_step _ pre MFresh true s0 (rn_flag s0 rest) Hj Hfs0 Hor0 Hc0) as [cur3 [Hst Hp3]].
@@ -571,8 +663,8 @@ Section PLAN2.
         now apply (compat_next s0 n r' MFresh true). }
       exists p, m', swap'. split; [|rewrite E; now rewrite <- app_assoc in Hpp].
       unfold plan_log, q. cbv zeta. cbn [sel_pipeline sel_matchers]. rewrite E.
-      rewrite (pre_simple (s0 :: rest) s0 rest eq_refl Hrel pre Hpre).
-      rewrite (pre_lji (s0 :: rest) s0 rest eq_refl Hrel pre 0 Hpre). cbn [Nat.add].
+      rewrite (pre_simple (s0 :: rest) Hsimple pre Hpre).
+      rewrite (pre_lji (s0 :: rest) s0 rest eq_refl Hjoin pre 0 Hpre). cbn [Nat.add].
       rewrite (pre_renew (s0 :: rest) pre 0 (List.length pre) Hpre eq_refl).
       unfold plan_ts. rewrite (pre_plan_ts (s0 :: rest) pre _ Hpre). fold (fp_planner ms (slfs pre)).
       rewrite (pre_plan_spl (s0 :: rest) (fp_planner ms (slfs pre)) pre 0 (List.length pre) _ Hpre eq_refl).
@@ -588,7 +680,7 @@ Section PLAN2.
         log_select q c = Some sel
         /\ eval re_match parse_float json_get hash_labels tie (to_sqldb c d) sel = Some rows
         /\ map row_out rows = map Some outs
-        /\ logql_sem2 re_match parse_float json_get hash_labels q c d outs.
+        /\ logql_sem3 re_match parse_float json_get hash_labels q c d outs.
     Proof.
       destruct plan_log2 as [p [m [swap [Hplan [sel [st' [cur' [Hproc Hs]]]]]]]].
       destruct (ctx_names c Hctx) as [_ [_ [_ [_ [_ [Hfin Hl0]]]]]].
@@ -603,7 +695,7 @@ Section PLAN2.
       assert (Hsrc' : A7 src_rows sel_l = Some (map src T)).
       { unfold sel_l, sel_o. destruct (c_limit c =? 0)%Z; rewrite ?src_rows_set_limit, src_rows_set_orderby; exact Hsrc. }
       destruct (es_five_sorted re_match parse_float json_get hash_labels tie tie_perm c d sel_l swap e_ts e_fp e_lab e_str e_val w T src out keep
-                  Hf' Hsrc' Hcs (A7 wsem_cond w T _ keep Hw)) as [ys [Hys Hes]].
+                  Hf' Hsrc' Hcs (A7 wsem_cond w T src out keep swap Hw)) as [ys [Hys Hes]].
       set (pl := limited c (isort (lts_leb c) ys)) in *.
       destruct (es_final2 sel_l swap pl Hes) as [rows [Hfinal Hrows]].
       assert (Hout : map row_out (map fin_row2 pl) = map Some (map mkout2 pl)).
@@ -615,7 +707,7 @@ Section PLAN2.
         unfold final_select, sel_l, sel_o. destruct (c_limit c =? 0)%Z; reflexivity.
       - assert (Hlive : Permutation ys (live re_match parse_float json_get hash_labels c d ms ppl)).
         { eapply Permutation_trans; [exact Hys|exact Hperm]. }
-        unfold logql_sem2. unfold q. rewrite log_rows2_live. unfold pl, limited in Hpo.
+        unfold logql_sem3. unfold q. rewrite log_rows3_live. unfold pl, limited in Hpo.
         destruct (c_limit c =? 0)%Z eqn:El.
         + eapply Permutation_trans; [apply Permutation_sym, Hpo|]. apply Permutation_map.
           eapply Permutation_trans; [apply isort_perm|exact Hlive].
@@ -637,7 +729,7 @@ Section PLAN2.
         bp_select q c = Some sel
         /\ eval re_match parse_float json_get hash_labels tie (to_sqldb c d) sel = Some rows
         /\ map row_out rows = map Some outs
-        /\ Permutation outs (log_rows2 re_match parse_float json_get hash_labels q c d)
+        /\ Permutation outs (log_rows3 re_match parse_float json_get hash_labels q c d)
         /\ ts_sorted (c_asc c) outs.
     Proof.
       destruct (plan_log2_fin false) as [p [m [swap [Hplan [sel [st' [cur' [Hproc Hs]]]]]]]].
@@ -648,19 +740,43 @@ Section PLAN2.
       { unfold sel_o. eapply flat5_set_orderby. exact Hf. }
       assert (Hsrc' : A7 src_rows sel_o = Some (map src T)) by (unfold sel_o; rewrite src_rows_set_orderby; exact Hsrc).
       destruct (es_five_sorted_nl re_match parse_float json_get hash_labels tie tie_perm c d sel_o swap e_ts e_fp e_lab e_str e_val w T src out keep
-                  Hf' Hsrc' Hcs (A7 wsem_cond w T _ keep Hw)) as [ys [Hys Hes]].
+                  Hf' Hsrc' Hcs (A7 wsem_cond w T src out keep swap Hw)) as [ys [Hys Hes]].
       destruct (es_final_bp sel_o swap _ Hes) as [pl' [Hpl' Hfinal]].
       exists (bp_final_select sel_o), (map fin_row2 (isort (lts_leb c) pl')), (map mkout2 (isort (lts_leb c) pl')).
       split; [|split; [exact Hfinal|split; [|split]]].
       - unfold bp_select. rewrite Hplan. cbn [process]. rewrite Hproc. cbn [bind]. rewrite Hfin. cbn [negb map]. reflexivity.
       - rewrite !map_map. apply map_ext. intros t. reflexivity.
-      - unfold q. rewrite log_rows2_live. apply Permutation_map.
+      - unfold q. rewrite log_rows3_live. apply Permutation_map.
         eapply Permutation_trans; [apply isort_perm|]. eapply Permutation_trans; [exact Hpl'|].
         eapply Permutation_trans; [apply isort_perm|]. eapply Permutation_trans; [exact Hys|exact Hperm].
       - apply sorted_mkout2. apply (isort_sorted (lts_leb c) lts_leb_total lts_leb_trans).
     Qed.
   End FINAL.
 End PLAN2.
+
+(* ---------- fragment 2 (no line_format) inside the generalised development ---------- *)
+Definition frag2_stage (s : stage) : bool := is_filter s || is_json s || LogqlSem.is_drop s || is_regexp s.
+Lemma frag2_frag ppl : forallb frag2_stage ppl = true -> forallb frag_stage ppl = true.
+Proof.
+  induction ppl as [|s r IH]; intros H; [reflexivity|]. cbn [forallb] in *. apply andb_prop in H. destruct H as [Hs Hr].
+  rewrite (IH Hr), andb_true_r. unfold frag_stage. unfold frag2_stage in Hs. now rewrite Hs.
+Qed.
+Lemma frag2_jstage ppl : existsb (fun s => is_json s || LogqlSem.is_drop s || is_regexp s) ppl = true -> existsb jstage ppl = true.
+Proof.
+  induction ppl as [|s r IH]; intros H; [discriminate|]. cbn [existsb] in *. apply orb_prop in H. destruct H as [H|H].
+  - unfold jstage. now rewrite H.
+  - rewrite (IH H). apply orb_true_r.
+Qed.
+Lemma frag2_no_lfmt ppl : forallb frag2_stage ppl = true -> no_lfmt ppl = true.
+Proof.
+  induction ppl as [|s r IH]; intros H; [reflexivity|]. cbn [forallb] in H. apply andb_prop in H. destruct H as [Hs Hr].
+  cbn [no_lfmt forallb]. fold (no_lfmt r). rewrite (IH Hr). destruct s; try discriminate Hs; reflexivity.
+Qed.
+Lemma no_lfmt_simple ppl : no_lfmt ppl = true -> lfmt_simple_ok ppl = true.
+Proof.
+  induction ppl as [|s r IH]; intros H; [reflexivity|]. cbn [no_lfmt forallb] in H. apply andb_prop in H. destruct H as [Hs Hr].
+  cbn [lfmt_simple_ok]. destruct (is_relabel s); [reflexivity|]. destruct s; try discriminate Hs; now apply IH.
+Qed.
 
 Theorem logql_breakpoint_plan_proof :
   forall (RG : ReGroups) re_match parse_float json_get hash_labels (tie : forall A : Type, list A -> list A),
@@ -680,9 +796,16 @@ Proof.
   unfold in_fragment2 in Hfrag. cbn [sel_matchers sel_pipeline] in Hfrag.
   apply andb_prop in Hfrag. destruct Hfrag as [Hfrag Hex]. apply andb_prop in Hfrag. destruct Hfrag as [Hne Hall].
   unfold width_guard in Hw. cbn [sel_matchers] in Hw. apply Nat.leb_le in Hw.
-  apply (bp_plan2_correct re_match parse_float json_get hash_labels tie Htie c d Hctx ms Hdb); try assumption.
+  fold frag2_stage in Hall.
+  destruct (bp_plan2_correct re_match parse_float json_get hash_labels tie Htie c d Hctx ms Hdb) with (ppl := ppl)
+    as [sel [rows [outs [H1 [H2 [H3 [H4 H5]]]]]]]; try assumption.
   - intros ->. discriminate.
   - lia.
+  - now apply frag2_frag.
+  - now apply frag2_jstage.
+  - apply no_lfmt_simple. now apply frag2_no_lfmt.
+  - exists sel, rows, outs. split; [exact H1|]. split; [exact H2|]. split; [exact H3|]. split; [|exact H5].
+    rewrite <- (log_rows3_no_lfmt re_match parse_float json_get hash_labels _ c d); [exact H4|]. now apply frag2_no_lfmt.
 Qed.
 
 (* ================= the property theorem ================= *)
@@ -697,9 +820,38 @@ Proof.
   unfold in_fragment2 in Hfrag. cbn [sel_matchers sel_pipeline] in Hfrag.
   apply andb_prop in Hfrag. destruct Hfrag as [Hfrag Hex]. apply andb_prop in Hfrag. destruct Hfrag as [Hne Hall].
   unfold width_guard in Hw. cbn [sel_matchers] in Hw. apply Nat.leb_le in Hw.
+  fold frag2_stage in Hall.
+  destruct (log_plan2_correct re_match parse_float json_get hash_labels tie Htie c d Hctx ms Hdb) with (ppl := ppl)
+    as [sel [rows [outs [H1 [H2 [H3 H4]]]]]]; try assumption.
+  - intros ->. discriminate.
+  - lia.
+  - now apply frag2_frag.
+  - now apply frag2_jstage.
+  - apply no_lfmt_simple. now apply frag2_no_lfmt.
+  - exists sel, rows, outs. split; [exact H1|]. split; [exact H2|]. split; [exact H3|].
+    unfold logql_sem2. unfold logql_sem3 in H4.
+    rewrite <- (log_rows3_no_lfmt re_match parse_float json_get hash_labels _ c d); [exact H4|]. now apply frag2_no_lfmt.
+Qed.
+
+(* ================= line_format pipelines (fragment 3) ================= *)
+Theorem logql_log_line_format_proof :
+  forall (RG : ReGroups) re_match parse_float json_get hash_labels (tie : forall A : Type, list A -> list A),
+    (forall A (l : list A), Permutation (tie A l) l) ->
+    forall q c d, in_fragment3 q = true -> oracle_ok re_match parse_float q -> ctx_ok c = true -> db_ok c d ->
+    width_guard q = true -> absent_guard re_match q d ->
+    log_correct3 re_match parse_float json_get hash_labels tie q c d.
+Proof.
+  intros RG re_match parse_float json_get hash_labels tie Htie [ms ppl] c d Hfrag Hor Hctx Hdb Hw Hg.
+  unfold in_fragment3 in Hfrag. cbn [sel_matchers sel_pipeline] in Hfrag.
+  apply andb_prop in Hfrag. destruct Hfrag as [Hfrag Hsimp]. apply andb_prop in Hfrag. destruct Hfrag as [Hfrag Hex].
+  apply andb_prop in Hfrag. destruct Hfrag as [Hne Hall].
+  unfold width_guard in Hw. cbn [sel_matchers] in Hw. apply Nat.leb_le in Hw.
   apply (log_plan2_correct re_match parse_float json_get hash_labels tie Htie c d Hctx ms Hdb); try assumption.
   - intros ->. discriminate.
   - lia.
+  - clear -Hex. induction ppl as [|s r IH]; [discriminate|]. cbn [existsb] in *. apply orb_prop in Hex. destruct Hex as [H|H].
+    + unfold jstage. rewrite H. now rewrite !orb_true_r.
+    + rewrite (IH H). apply orb_true_r.
 Qed.
 
 (* ---- the hypotheses are met by an ordinary query with a json stage, a label filter on the extracted label, a drop and
@@ -838,7 +990,7 @@ Lemma log_rows2_filters {RG : ReGroups} re_match parse_float json_get hash_label
   log_rows2 re_match parse_float json_get hash_labels q c d = log_rows re_match parse_float q c d.
 Proof.
   intros Hsup. destruct q as [ms ppl]. cbn [sel_pipeline] in Hsup.
-  rewrite (log_rows2_live re_match parse_float json_get hash_labels c d ms ppl).
+  rewrite (log_rows2_live re_match parse_float json_get hash_labels c d ms ppl (sup_no_lfmt ppl Hsup)).
   rewrite (live_filters re_match parse_float json_get hash_labels c d ms ppl Hsup).
   unfold log_rows. rewrite map_map. apply map_ext. intros x. reflexivity.
 Qed.
@@ -858,4 +1010,50 @@ Proof.
     unfold logql_sem2. rewrite (log_rows2_filters re_match parse_float json_get hash_labels q c d Hsup). exact H4.
   - cbn [orb] in Hfrag.
     exact (logql_log_partial_parsers_proof RG re_match parse_float json_get hash_labels tie Htie q c d Hfrag Hor Hctx Hdb Hw Hg).
+Qed.
+
+(* ================= the three fragments in one statement (reference logql_sem3) ================= *)
+Theorem logql_log_correct3_proof :
+  forall (RG : ReGroups) re_match parse_float json_get hash_labels (tie : forall A : Type, list A -> list A),
+    (forall A (l : list A), Permutation (tie A l) l) ->
+    forall q c d, in_fragment q || in_fragment2 q || in_fragment3 q = true -> oracle_ok re_match parse_float q -> ctx_ok c = true ->
+    db_ok c d -> width_guard q = true -> absent_guard re_match q d ->
+    log_correct3 re_match parse_float json_get hash_labels tie q c d.
+Proof.
+  intros RG re_match parse_float json_get hash_labels tie Htie q c d Hfrag Hor Hctx Hdb Hw Hg.
+  destruct (in_fragment q || in_fragment2 q) eqn:E12.
+  - destruct (logql_log_correct_proof RG re_match parse_float json_get hash_labels tie Htie q c d E12 Hor Hctx Hdb Hw Hg)
+      as [sel [rows [outs [H1 [H2 [H3 H4]]]]]].
+    exists sel, rows, outs. split; [exact H1|]. split; [exact H2|]. split; [exact H3|].
+    assert (Hn : no_lfmt (sel_pipeline q) = true).
+    { apply orb_prop in E12. destruct E12 as [E|E].
+      - unfold in_fragment in E. apply andb_prop in E. destruct E as [_ E]. now apply sup_no_lfmt.
+      - unfold in_fragment2 in E. apply andb_prop in E. destruct E as [E _]. apply andb_prop in E. destruct E as [_ E].
+        now apply frag2_no_lfmt. }
+    unfold logql_sem3. rewrite (log_rows3_no_lfmt re_match parse_float json_get hash_labels q c d Hn). exact H4.
+  - cbn [orb] in Hfrag. now apply logql_log_line_format_proof.
+Qed.
+
+(* ---- the hypotheses of the line_format theorem are met: a json stage, a REGULAR-EXPRESSION line filter and a line_format in
+        one select (the filter tests the stored line: repair regex-line-filter-reads-alias), then a filter on the new line ---- *)
+Definition ex4_re (s p : string) : bool := contains "lev" s.       (* stands for RE2 on the one expression used: l.v *)
+Definition ex4_query : strsel :=
+  {| sel_matchers := [{| m_name := "b"; m_op := MEq; m_val := "1" |}];
+     sel_pipeline := [PParser PJson [{| pp_label := "lvl"; pp_val := "level"; pp_path := Some ["level"] |}];
+                      PLineFilter LFRe "l.v" None;
+                      PLineFormat "{{.lvl}}: done {x}";
+                      PLineFilter LFContains "info: d" None] |}.
+Example line_format_guards_met :
+  in_fragment3 ex4_query = true /\ oracle_ok (RG := no_groups) ex4_re no_float ex4_query /\ ctx_ok ex_ctx = true /\ db_ok ex_ctx ex2_db
+  /\ width_guard ex4_query = true /\ absent_guard ex4_re ex4_query ex2_db
+  /\ match log_select ex4_query ex_ctx with
+     | Some sel => option_map (map row_out) (eval (RG := no_groups) ex4_re no_float ex2_json ex2_hash tie_id (to_sqldb ex_ctx ex2_db) sel)
+     | None => None end
+     = Some [Some {| o_fp := 102; o_labels := [("b", "1"); ("lvl", "info")]; o_line := "info: done {x}"; o_ts := 1700000000000000005 |}].
+Proof.
+  split; [reflexivity|]. split.
+  { intros s Hs. cbn in Hs. destruct Hs as [<-|[<-|[<-|[<-|[]]]]]; cbn; tauto. }
+  split; [reflexivity|]. split; [exact ex2_db_ok|]. split; [reflexivity|]. split.
+  { intros m Hm He s Hs. cbn in Hm. destruct Hm as [<-|[]]. vm_compute in He. discriminate. }
+  vm_compute; reflexivity.
 Qed.
